@@ -160,6 +160,14 @@ func (c *ctx) yearsFor(boundary []int, nQuick int, lo, hi int) []int {
 			}
 		}
 	}
+	// century years of the Julian era that are leap years there and not in the proleptic Gregorian calendar (where a
+	// helper written for modern dates goes wrong): the first, the last and two seeded ones
+	jc := []int{100, 200, 300, 500, 600, 700, 900, 1000, 1100, 1300, 1400, 1500}
+	for _, y := range []int{jc[0], jc[len(jc)-1], jc[rt.Intn(len(jc))], jc[rt.Intn(len(jc))]} {
+		if y >= lo && y <= hi {
+			set[y] = true
+		}
+	}
 	if c.tier == "thorough" {
 		for y := lo; y <= hi; y++ {
 			set[y] = true
